@@ -362,3 +362,156 @@ Fixpoint bfs (p : program) (disc : bool) (good : pst -> bool) (fuel : nat)
 
 Definition find_bad (p : program) (disc : bool) (good : pst -> bool) : option (list label) :=
   bfs p disc good (200 * 1000) [((init p, m0), [])] [].
+
+(** ---- caller scripts: the set of ALL outcomes over all schedules (correspondence) -------- *)
+
+Inductive sop := SStartLong | SStartShort | SCancel | SWait | SPoll | SCtx.
+Inductive sout := RoOk | RoNil | RoE | RoT | RoOpen | RoClosed | RoNone | RoPanic | RoExit | RoStuck | RoLimit.
+
+(** configuration: state, "the armed time.Timer has a short duration (it will fire)", "the pending request is short" *)
+Definition cfg : Type := (st * (bool * bool))%type.
+Definition cfg_eq_dec : forall a b : cfg, {a = b} + {a <> b}.
+Proof. decide equality; [decide equality; apply Bool.bool_dec | apply st_eq_dec]. Defined.
+Definition sout_eq_dec : forall a b : sout, {a = b} + {a <> b}. Proof. decide equality. Defined.
+Definition res_eq_dec : forall a b : cfg * list sout, {a = b} + {a <> b}.
+Proof. decide equality; [apply (list_eq_dec sout_eq_dec) | apply cfg_eq_dec]. Defined.
+
+Definition resets (s : st) : bool :=
+  match s_pc s with PExec (ABasic BResetTimer :: _) _ => true | _ => false end.
+
+Definition internal_succs (p : program) (c : cfg) : list cfg :=
+  let '(s, (ash, rsh)) := c in
+  if dead s then []
+  else (if ash then match caller_step p false s LFire with Some (s', _) => [(s', (ash, rsh))] | None => [] end else [])
+       ++ map (fun r : st * list obs => (fst r, (if resets s then rsh else ash, rsh))) (bg_succs p s).
+
+Definition cmem (x : cfg) (l : list cfg) : bool := if in_dec cfg_eq_dec x l then true else false.
+
+Fixpoint closure (p : program) (fuel : nat) (todo visited : list cfg) : list cfg :=
+  match fuel with
+  | 0 => visited
+  | S f =>
+      match todo with
+      | [] => visited
+      | x :: rest => if cmem x visited then closure p f rest visited
+                     else closure p f (internal_succs p x ++ rest) (x :: visited)
+      end
+  end.
+
+Definition clos (p : program) (c : cfg) : list cfg := closure p (20 * 1000) [c] [].
+
+Definition quiescent (p : program) (c : cfg) : bool :=
+  match internal_succs p c with [] => true | _ => false end.
+
+Definition with_st (c : cfg) (s : st) : cfg := (s, snd c).
+
+(** One caller operation from one configuration: all (outcome, configuration after) pairs.
+    A [RoPanic]/[RoLimit] outcome ends the script. *)
+Definition exec_sop (p : program) (o : sop) (c : cfg) : list (sout * cfg) :=
+  let cs := clos p c in
+  match o with
+  | SStartLong | SStartShort =>
+      let sh := match o with SStartShort => true | _ => false end in
+      flat_map (fun c1 : cfg =>
+        match caller_step p false (fst c1) LStart with
+        | None => []
+        | Some (s1, _) =>
+            flat_map (fun c2 : cfg =>
+              match s_pc (fst c2) with
+              | PPanic => [(RoPanic, c2)]
+              | PLimit => [(RoLimit, c2)]
+              | _ =>
+                match s_cl (fst c2) with
+                | CIdle => [(RoOk, c2)]
+                | _ => match caller_step p false (fst c2) LAbort with
+                       | Some (s3, _) => [(RoNil, with_st c2 s3)]
+                       | None => []
+                       end
+                end
+              end) (clos p (s1, (fst (snd c1), sh)))
+        end) cs
+  | SCancel =>
+      flat_map (fun c1 : cfg =>
+        match caller_step p false (fst c1) LCancel with
+        | Some (s1, _) => [(match s_pc s1 with PPanic => RoPanic | PLimit => RoLimit | _ => RoOk end, with_st c1 s1)]
+        | None => []
+        end) cs
+  | SWait =>
+      flat_map (fun c1 : cfg =>
+        match s_h_el (fst c1) with
+        | RNone => [(RoNone, c1)]
+        | _ =>
+          match caller_step p false (fst c1) LObserve with
+          | Some (s1, _) => [(RoE, with_st c1 s1)]
+          | None => if quiescent p c1 then [(RoT, c1)] else []
+          end
+        end) cs
+  | SPoll =>
+      flat_map (fun c1 : cfg =>
+        match s_h_el (fst c1) with
+        | RNone => [(RoNone, c1)]
+        | RCur => [(if s_el_closed (fst c1) then RoClosed else RoOpen, c1)]
+        | RStale => [(RoLimit, c1)]
+        end) cs
+  | SCtx =>
+      flat_map (fun c1 : cfg =>
+        match caller_step p false (fst c1) LCtx with
+        | Some (s1, _) => [(RoOk, with_st c1 s1)]
+        | None => [(RoOk, c1)]
+        end) cs
+  end.
+
+Definition rmem (x : cfg * list sout) (l : list (cfg * list sout)) : bool := if in_dec res_eq_dec x l then true else false.
+Fixpoint rdedup (l : list (cfg * list sout)) : list (cfg * list sout) :=
+  match l with [] => [] | x :: l' => if rmem x l' then rdedup l' else x :: rdedup l' end.
+Definition omem (x : list sout) (l : list (list sout)) : bool := if in_dec (list_eq_dec sout_eq_dec) x l then true else false.
+Fixpoint odedup (l : list (list sout)) : list (list sout) :=
+  match l with [] => [] | x :: l' => if omem x l' then odedup l' else x :: odedup l' end.
+
+Definition terminal (o : sout) : bool := match o with RoPanic | RoLimit => true | _ => false end.
+
+(** [cur]: live (configuration, reversed outcomes so far); returns all complete outcome vectors.
+    At the end the context is cancelled and the harness waits for the goroutine: exit or stuck. *)
+Fixpoint exec_script (p : program) (ops : list sop) (cur : list (cfg * list sout)) (done : list (list sout)) : list (list sout) :=
+  match ops with
+  | [] =>
+      odedup (done ++ flat_map (fun co : cfg * list sout =>
+        let c := match caller_step p false (fst (fst co)) LCtx with Some (s1, _) => with_st (fst co) s1 | None => fst co end in
+        flat_map (fun c2 : cfg =>
+          match s_pc (fst c2) with
+          | PExit => [rev (RoExit :: snd co)]
+          | _ => if quiescent p c2 then [rev (RoStuck :: snd co)] else []
+          end) (clos p c)) cur)
+  | o :: ops' =>
+      let nxt := flat_map (fun co : cfg * list sout =>
+                   map (fun r : sout * cfg => (snd r, fst r :: snd co)) (exec_sop p o (fst co))) cur in
+      let fin := map (fun co : cfg * list sout => rev (snd co)) (filter (fun co : cfg * list sout => match snd co with x :: _ => terminal x | [] => false end) nxt) in
+      let live := filter (fun co : cfg * list sout => match snd co with x :: _ => negb (terminal x) | [] => true end) nxt in
+      exec_script p ops' (rdedup live) (done ++ fin)
+  end.
+
+Definition script_outcomes (p : program) (ops : list sop) : list (list sout) :=
+  exec_script p ops [((init p, (false, false)), [])] [].
+
+(** ---- "a pending start request is always answered" ------------------------------------------ *)
+
+(** Whatever the scheduler picks for the background goroutine, within [fuel] of its steps the
+    pending request is answered (caller back to [CIdle]); a panic, a block or an exit before that
+    makes it false. *)
+Fixpoint bg_all_paths_reply (p : program) (fuel : nat) (s : st) : bool :=
+  match s_cl s with
+  | CIdle => true
+  | _ =>
+      match fuel with
+      | 0 => false
+      | S f =>
+          if dead s then false
+          else match bg_succs p s with
+               | [] => false
+               | l => forallb (fun r : st * list obs => bg_all_paths_reply p f (fst r)) l
+               end
+      end
+  end.
+
+Definition served (p : program) (x : pst) : bool :=
+  s_ctx (fst x) || bg_all_paths_reply p 40 (fst x).
